@@ -6,6 +6,7 @@ import (
 	"fmt"
 	"go/types"
 	"math/big"
+	"regexp"
 	"strings"
 )
 
@@ -176,8 +177,16 @@ func intWidth(t types.Type) int {
 	return 64
 }
 
+var aliasRe = regexp.MustCompile(`\b(byte|rune)\b`)
+
 func typeKey(t types.Type) string {
 	s := types.TypeString(t, func(p *types.Package) string { return p.Name() })
+	s = aliasRe.ReplaceAllStringFunc(s, func(m string) string {
+		if m == "byte" {
+			return "uint8"
+		}
+		return "int32"
+	})
 	return strings.ReplaceAll(s, " ", "")
 }
 
